@@ -50,6 +50,11 @@ type Spec struct {
 	// site failing. FaultOracle is evaluated on each such run (default: no-trace oracle).
 	Faults      bool
 	FaultOracle func(c *StepCtx, preDB, postDB string) []Diff
+	// LenientResultVID: a write result that carries no version id is not compared with the
+	// model's id (asynchronous layers cannot know it); the id is still checked by observation.
+	LenientResultVID bool
+	// WorkerStep executes the environment action "one background worker pass".
+	WorkerStep func(w *world.World, under storage.Storage)
 	// Extra is an additional oracle evaluated in the worker after the last op.
 	Extra func(c *StepCtx) []Diff
 	// Classify maps a diff to the finding class used for known-findings matching (default: class:field).
@@ -187,6 +192,11 @@ func RunStep(t *testing.T, j job) (res stepResult) {
 		// envOp handles environment actions that are not storage calls. "Remap": close the
 		// world and reopen the same directory with another storage-class -> store mapping.
 		envOp := func(op Op) (Res, bool) {
+			if op.Kind == "WorkerStep" && spec.WorkerStep != nil {
+				spec.WorkerStep(w, d.S)
+				m.Step++
+				return Res{}, true
+			}
 			if op.Kind != "Remap" {
 				return Res{}, false
 			}
@@ -241,7 +251,13 @@ func RunStep(t *testing.T, j job) (res stepResult) {
 				ctx.ModelR = m.Apply(*j.Op, &ctx.ImplR)
 			}
 			res.Res = ctx.ImplR
-			res.Diffs = append(res.Diffs, DiffRes(*j.Op, ctx.ModelR, ctx.ImplR)...)
+			mr := ctx.ModelR
+			if spec.LenientResultVID && ctx.ImplR.VID == "" {
+				mr.VID = ""
+				mr.ETag = ""
+				mr.Ck, mr.CkOpt = nil, nil
+			}
+			res.Diffs = append(res.Diffs, DiffRes(*j.Op, mr, ctx.ImplR)...)
 		}
 		var idiffs []Diff
 		ctx.Post, idiffs = d.Observe(spec.Buckets, spec.Keys)
@@ -563,7 +579,7 @@ func (s *Search) replayModel(st state) *Model {
 		if i < len(st.Hints) {
 			h = &st.Hints[i]
 		}
-		if op.Kind == "Remap" {
+		if op.Kind == "Remap" || op.Kind == "WorkerStep" {
 			m.Step++
 			continue
 		}
